@@ -53,7 +53,8 @@ def gen_tree(rnd, sep, depth, counter):
             out[k] = gen_tree(rnd, sep, depth - 1, counter)
         else:
             counter[0] += 1
-            payload = rnd.choice([Leaf(counter[0]), counter[0], None, "s", [1, 2], (1,), 3.5])
+            payload = rnd.choice([Leaf(counter[0]), counter[0], None, "s", [1, 2], (1,), 3.5, ..., ..., False, 0, "", [], {}.keys(),
+                                  float("inf"), b"", frozenset()])
             if rnd.random() < .3:
                 out[optional(k)] = payload
             else:
